@@ -297,7 +297,12 @@ Finish(s, a, res, cyc) ==
       s2 == IF A.hop # 0 THEN SetO(Withdraw(s1, A.hop), A.hop, [ph |-> "dropped"]) ELSE s1
       s3 == SetA(s2, a, [pc |-> "Done", closed |-> TRUE, mbox |-> <<>>, cur |-> 0, own |-> FALSE,
                          marker |-> FALSE, hop |-> 0, term |-> FALSE, res |-> res])
-      s4 == IF DeadlockDetection THEN ClearEdge(s3, a) ELSE s3
+      s4a == IF DeadlockDetection THEN ClearEdge(s3, a) ELSE s3
+      \* destroying an unanswered request also releases its asker's edge (part of the F1 fix)
+      askers == {s.O[o].own : o \in {x \in dropped : s.O[x].kind \in AskKinds /\ s.O[x].rep = "open"}}
+      s4 == IF DeadlockDetection /\ EdgeClearedOnReply
+              THEN [s4a EXCEPT !.wf = [x \in Actors |-> IF x \in askers THEN "" ELSE s4a.wf[x]]]
+              ELSE s4a
   IN  R(s4, << [e |-> "Joined", a |-> a, res |-> res,
                 jl |-> IF res.has THEN s.A[a].jl ELSE <<>>, cyc |-> cyc] >>)
 
@@ -508,6 +513,8 @@ DoRaw(s, cmd) ==
                pending |-> SetToSortSeq({o \in OpIds : s.O[o].ph \in {"wait","granted","reply"}},
                                         LAMBDA x, y : x < y),
                unjoined |-> SelectSeq(ActorSeq, LAMBDA a : s.A[a].sp /\ s.A[a].pc # "Done"),
+               wf |-> LET cs == SelectSeq(ActorSeq, LAMBDA a : s.wf[a] # "")
+                      IN  [i \in 1..Len(cs) |-> << cs[i], s.wf[cs[i]] >>],
                now |-> s.now] >>)
 
 \* forget the details of ops that are finished and whose message is no longer anywhere
